@@ -23,7 +23,8 @@ EXPLANATION = (
     'key of RegionVisual.valid_keys, after the per-artist keymap and the removal list (evaluated from define_mpl_kwargs), is a '
     'keyword the artist family accepts (trusted table) — as_artist returns an artist whatever valid visual keys the region '
     'carries. Not decided: matplotlib\'s meaning of those arguments '
-    '(trusted table); curve approximation; the visual→mpl key translation values.')
+    '(trusted table); curve approximation; the visual→mpl key translation values; regions with include=False (a patch outlines '
+    'the shape, it cannot depict the complement — the property cannot hold for them and no rule reports it).')
 TRUSTED = ['matplotlib Circle(xy, radius), Ellipse(xy, width, height, angle[deg]), Rectangle(xy, width, height, angle[deg] about xy), '
            'Polygon(xy n×2), Line2D(xs, ys), Arrow(x, y, dx, dy), Text(x, y, text), Path(vertices, codes)',
            'a path with an oppositely oriented inner outline renders a hole']
